@@ -166,20 +166,24 @@ def check_key(ci, d, deep=True):
     x, y = Q
     db = d.to_bytes(ci.nl, "big")
     msg = b"c09 message"
-    sig = sk.sign_deterministic(msg, hashfunc=hashlib.sha256)
+    sig = sk.sign_deterministic(msg)          # default hash of the key = the sha256 it was built with
 
     def same_sk(k2, what):
         if not (k2 == sk) or k2.curve is not cv or k2.privkey.secret_multiplier != d or K.vk_xy(k2.verifying_key) != Q:
             bad.append(what + ": reloaded signing key differs")
-        elif deep and (k2.sign_deterministic(msg, hashfunc=hashlib.sha256) != sig):
+        elif k2.default_hashfunc is not hashlib.sha256 or k2.verifying_key.default_hashfunc is not hashlib.sha256:
+            bad.append(what + ": the hash function given to the loader is not the reloaded key's default (signs differently)")
+        elif deep and (k2.sign_deterministic(msg) != sig):
             bad.append(what + ": reloaded signing key signs differently")
 
     def same_vk(k2, what):
         if not (k2 == vk) or k2.curve is not cv or K.vk_xy(k2) != Q:
             bad.append(what + ": reloaded verifying key differs")
+        elif k2.default_hashfunc is not hashlib.sha256:
+            bad.append(what + ": the hash function given to the loader is not the reloaded key's default (verifies differently)")
         elif deep:
             try:
-                k2.verify(sig, msg, hashfunc=hashlib.sha256)
+                k2.verify(sig, msg)
             except Exception as e:  # noqa
                 bad.append(what + ": reloaded verifying key rejects the signature (%s)" % common.errname(e))
     if sk.to_string() != db:
